@@ -329,6 +329,12 @@ class Tree:
         self.audit(b)
         return b
 
+    def adopt(self, b):
+        """a valid block produced elsewhere (the node's miner) joins the tree"""
+        self.cs = self.cs.add_block_no_validation(b)
+        self.own[b.hash()] = self.apply_own(self.own[b.previous_block_hash], b)
+        self.blocks.append(b)
+
     def audit(self, b):
         """the node's ledger state at the new block against the harness's own ledger"""
         want = {(r.hash, r.index): (o.value, o.public_key.public_key) for r, o in self.own[b.hash()].items()}
